@@ -19,7 +19,7 @@ params:
              cb: bool, thread: client index, nested: bool (callable submits a probe to the same executor),
              nested_cb: bool (a done-callback submits to the same executor), wait: bool (a client blocks in result()),
              fault: {site, k}}]
-  shutdown {"at": t, "wait": bool, "repeat": n} | None
+  shutdown {"at": t, "wait": bool, "repeat": n, "threads": n, "cancel_futures": None (not passed) | bool} | None
   probe    time at which a fresh submission probes liveness (C18) | None
   names    {"base": name | None, "layers": {index: name}}
   horizon
@@ -337,7 +337,10 @@ def build(p):
         def shutter():
             E.vsleep(shutdown["at"])
             for r in range(shutdown.get("repeat", 1)):
-                H.do_shutdown(top, "top", shutdown.get("wait", True))
+                kw = {}
+                if shutdown.get("cancel_futures") is not None:
+                    kw["cancel_futures"] = bool(shutdown["cancel_futures"])
+                H.do_shutdown(top, "top", shutdown.get("wait", True), **kw)
 
         if shutdown:
             E.spawn("sh", shutter)
